@@ -121,9 +121,10 @@ def doStep (st : St) (t : Nat) (l : Label) (res : List String) (tag : String)
           | some r, .done r' => if r = r' then .ok () else .error s!"model=returns {showPC (s'.pc t)}"
           | _, p => .error s!"model=does-not-return-here pc-after={showPC p}"
         | none =>
-          match s'.pc t with
-          | .done _ => .error s!"model=returns-here {showPC (s'.pc t)}"
-          | _ => .ok ()
+          match s'.pc t, l with
+          | _, .advance _ => .ok ()
+          | .done _, _ => .error s!"model=returns-here {showPC (s'.pc t)}"
+          | _, _ => .ok ()
       match retChk with
       | .error e => .error e
       | .ok () =>
